@@ -43,6 +43,11 @@ CONFIGS = {
                         get=[("BUILD", 0), ("BASE64URL", None), ("PREPEND", b"/"), ("URI_APPEND", None)],
                         post=[("BUILD", 0), ("BASE64URL", None), ("PARAMETER", b"id"), ("BUILD", 1), ("BASE64", None), ("PRINT", None)],
                         recover=[("print", None), ("base64", None)]),
+    # bodies that contain the header / body separator themselves (CR LF CR LF in front of, inside and behind the payload)
+    "crlf_in_bodies": dict(domains="a.example,/news", submit="/upload",
+                           get=[("BUILD", 0), ("BASE64", None), ("HEADER", b"Cookie")],
+                           post=[("BUILD", 0), ("BASE64URL", None), ("PARAMETER", b"id"), ("BUILD", 1), ("PREPEND", b"\r\n\r\n"), ("APPEND", b"\r\n\r\n\r\n--end"), ("PRINT", None)],
+                           recover=[("print", None), ("append", 4), ("prepend", 6)], server_fill=b"\r\n\r\n\r\n"),
     "swapped_verbs": dict(domains="a.example,/in", submit="/out", verb_get="POST", verb_post="GET",
                           get=[("BUILD", 0), ("BASE64", None), ("PRINT", None)],
                           post=[("BUILD", 0), ("BASE64URL", None), ("PARAMETER", b"i"), ("BUILD", 1), ("BASE64URL", None), ("HEADER", b"X-Data")],
@@ -101,7 +106,7 @@ class Peer:
         padded = pkt + b"A" * (16 - len(pkt) % 16)
         ct = ref_cbc_encrypt(padded, self.aes, b"abcdefghijklmnop")
         sig = hmac_mod.new(self.hmac, ct, hashlib.sha256).digest()[:16]
-        return reft.server_encode(self.conf["recover"], ct + sig, self.rng)
+        return reft.server_encode(self.conf["recover"], ct + sig, self.rng, fill=self.conf.get("server_fill"))
 
 
 def build_config(key, conf):
@@ -259,7 +264,8 @@ def recover_metadata(conf, method, url, headers, params, content):
 
 def decoder_kwargs(variant, key, keys):
     aes, hm, rand = keys
-    return {"rsa": dict(rsa_private_key=key), "rand": dict(aes_rand=rand), "aeshmac": dict(aes_key=aes, hmac_key=hm), "rsa_aes": dict(rsa_private_key=key, aes_key=aes, hmac_key=hm)}[variant]
+    return {"rsa": dict(rsa_private_key=key), "rand": dict(aes_rand=rand), "aeshmac": dict(aes_key=aes, hmac_key=hm), "rsa_aes": dict(rsa_private_key=key, aes_key=aes, hmac_key=hm),
+            "rsa_aesonly": dict(rsa_private_key=key, aes_key=aes)}[variant]
 
 
 def run(ctx):
@@ -272,7 +278,7 @@ def run(ctx):
     ctx.trusted += ["TLC", "Session.tla (Expect)", "harness team-server peer: own RSA (pow), AES-CBC from the raw block function, HMAC, transform encoder/decoder (ref/transform.py), HTTP rendering"]
     ctx.assumptions += ["send_callback sends one callback per POST; POSTs with 2-3 callbacks are produced with the library's own encrypt_packet / transform_submit from the client's state", "httpx is replaced inside the harness process; no network",
                         "a prefix-sharing URI is related traffic (routing is by prefix)"]
-    cfg_txt = lambda n: f'CONSTANTS\n MaxWire = {n}\n Variants = {{"rsa", "rand", "aeshmac", "rsa_aes"}}\n MaxCallbacks = 3\nSPECIFICATION Spec\nINVARIANT YieldedIsProjection\nINVARIANT Complete\nPROPERTY UnrelatedHarmless\nPROPERTY Monotone\nCHECK_DEADLOCK FALSE\n'  # noqa: E731
+    cfg_txt = lambda n: f'CONSTANTS\n MaxWire = {n}\n Variants = {{"rsa", "rand", "aeshmac", "rsa_aes", "rsa_aesonly"}}\n MaxCallbacks = 3\nSPECIFICATION Spec\nINVARIANT YieldedIsProjection\nINVARIANT Complete\nPROPERTY UnrelatedHarmless\nPROPERTY Monotone\nCHECK_DEADLOCK FALSE\n'  # noqa: E731
     r = ctx.tlc("Session", cfg_txt(6 if q else 8), name="model", timeout=3000)
     core.require_clean(r, "Session")
     core.require_coverage(r, ["CheckIn", "ServeTask", "ServeEmpty", "Callback", "ServePost", "Unrelated", "Decode"])
